@@ -522,10 +522,13 @@ func (r *runner) handleInterruptWithSubGraphAndRerunNodes(
 		}
 	}
 	intInfo := &InterruptInfo{
-		State:      cp.State,
-		AfterNodes: interruptAfterNodes,
-		RerunNodes: interruptRerunNodes,
-		SubGraphs:  make(map[string]*InterruptInfo),
+		State: cp.State,
+		// an interrupt-before node among the pending tasks is restored, not gated again, by the resumed run: it is
+		// reported here
+		BeforeNodes: getHitKey(pendingTasks, r.interruptBeforeNodes),
+		AfterNodes:  interruptAfterNodes,
+		RerunNodes:  interruptRerunNodes,
+		SubGraphs:   make(map[string]*InterruptInfo),
 	}
 	for _, t := range subgraphTasks {
 		if isStream {
